@@ -1969,6 +1969,7 @@ static void subpipe_case(struct vh_rng *r)
 }
 
 #include "lifecycle.inc.c"
+#include "fsrc.inc.c"
 
 static void run_case(struct vh_rng *r)
 {
@@ -1985,6 +1986,7 @@ static void run_case(struct vh_rng *r)
         if (vh_want_sample()) vh_sample("%s", vh_trace);
         return;
     }
+    if (mode == MODE_C20 && only_pipe < 0 && vh_chance(r, 1, 10)) { c20_fsrc_case(r); if (vh_want_sample()) vh_sample("%s", vh_trace); return; }
     if (mode == MODE_C12) { c12_case(r); if (vh_want_sample()) vh_sample("%s", vh_trace); return; }
     if (mode == MODE_C14 && only_pipe < 0 && vh_chance(r, 1, 3)) { c14_cutting_case(r); if (vh_want_sample()) vh_sample("%s", vh_trace); return; }
     uint64_t seed = vh_rand(r);
